@@ -421,3 +421,47 @@ func (b *Bridge) ConfirmAllPending(os []*Oracle) {
 		}
 	}
 }
+
+// GenesisRoundTrip exports the bridge module's genesis state on a throw-away branch, wipes the
+// module's store there and imports the state again (what a restart from an exported genesis does).
+// It returns the branch and the differences between the module's store before and after.
+func (b *Bridge) GenesisRoundTrip() (sdk.Context, []chain.DiffEntry, error) {
+	c := b.C
+	ctx := c.Branch()
+	var gs *crosschaintypes.GenesisState
+	var err error
+	func() {
+		defer func() {
+			if r := recover(); r != nil {
+				err = fmt.Errorf("export panicked: %v", r)
+			}
+		}()
+		gs = crosschainkeeper.ExportGenesis(ctx, b.K)
+	}()
+	if err != nil {
+		return ctx, nil, err
+	}
+	before := c.Dump(ctx, b.Name)
+	st := ctx.KVStore(c.App.GetKVStoreKey()[b.Name])
+	var keys [][]byte
+	it := st.Iterator(nil, nil)
+	for ; it.Valid(); it.Next() {
+		keys = append(keys, append([]byte{}, it.Key()...))
+	}
+	it.Close()
+	for _, k := range keys {
+		st.Delete(k)
+	}
+	func() {
+		defer func() {
+			if r := recover(); r != nil {
+				err = fmt.Errorf("import panicked: %v", r)
+			}
+		}()
+		crosschainkeeper.InitGenesis(ctx, b.K, gs)
+	}()
+	if err != nil {
+		return ctx, nil, err
+	}
+	return ctx, chain.Diff(before, c.Dump(ctx, b.Name)), nil
+}
